@@ -3,6 +3,7 @@ import N0Verif.Proofs.XPathDeleteRec
 import N0Verif.Proofs.XPathSpellings
 import N0Verif.Props.C01
 import N0Verif.Proofs.XPathHistory
+import N0Verif.Proofs.XPathHidden
 /-!
 # C05 — delete and pop remove exactly the addressed node
 
@@ -350,5 +351,53 @@ example : exHistory.map Hist.opPath =
     [['/', '/', 'a', '/', 'b', '/', 'c'],
      ['/', '/', 'a', '/', 'b', '[', 'n', 'e', 'w', '(', ')', ']', '/', 'c'],
      ['/', '/', 'k'], ['/', '/', 'k', '/', 'z'], ['/', '/', 'a', '/', 'b', '[', '0', ']']] := by decide
+
+/-! ## hidden lists (fix C03-e)
+
+Lookup reads a value that is not a list as the list of this one item (`d['a[0]']`, `d['a[-1]']`, `d['a[last()]']` are
+`d['a']`); "accepts every spelling of the path that lookup accepts" therefore includes these spellings, and what has to
+be removed is the node lookup returns.  Before the fix `delete` deleted from the temporary list `_find` had built: it
+returned without error and removed nothing, and `pop` returned a value that was still present afterwards. -/
+
+/-- **C05 (delete through a hidden list).**  `d.delete('//…q…/name[e]')`, `e` any spelling of `0` or `-1`, on the
+single value `old` of `name` removes exactly `name` (`delAt`) and raises nothing. -/
+theorem C05_delete_hidden_list (cls : Cls) (kvs : List (Str × Val)) (q : Pos) (kcls : Cls) (nkvs : List (Str × Val))
+    (name : Str) (old : Val) (e : IdxSp) (fuel : Nat)
+    (hp : PlainPos q) (hget : getAt (.dict cls kvs) q = some (.dict kcls nkvs)) (hn : PlainKey name)
+    (hl : lookup name nkvs = some old) (hs : isList old = false) (he : e.val = 0 ∨ e.val = -1)
+    (hf : fuel ≥ 2 * q.length + 2) :
+    ∃ t', delAt (.dict cls kvs) (q ++ [.key name]) = some t' ∧
+      delete fuel (.dict cls kvs) (slash ++ renderPos q ++ slash ++ (name ++ bracket e.text)) false = (t', .ok ()) := by
+  have hP : getAt (.dict cls kvs) (q ++ [Seg.key name]) = some old := by
+    rw [getAt_snoc, hget]; simp [child, hl]
+  obtain ⟨t', ht'⟩ := delAt_isSome (q ++ [.key name]) _ old (by simp) hP
+  exact ⟨t', ht', delete_hidden cls kvs q kcls nkvs name old e t' fuel hp hget hn hl hs he ht' hf⟩
+
+/-- the witnesses of the finding, evaluated on `{a: 1, o: {p: {q: 1}}, h: [1, {x: 1}, {}]}`: `delete('a[0]')` removes `a`;
+`pop('a[0]')` returns `1` and removes it; recursive pruning sees the real ancestors (`o[0]/p/q`, `o/p[0]/q` remove `o` as
+the plain path does); an index written as a step of its own after an element of a list (`h[1][0]/x`) prunes `h[1]` once and
+leaves the element that shifts into its place alone; an item that does not exist (`a[3]`) raises -/
+def exHidden : Val :=
+  .dict .n0 [(['a'], .int 1), (['o'], .dict .n0 [(['p'], .dict .n0 [(['q'], .int 1)])]),
+             (['h'], .list .n0 [.int 1, .dict .n0 [(['x'], .int 1)], .dict .n0 []])]
+theorem C05_hidden_list_ok :
+    delete 40 exHidden ['a', '[', '0', ']'] false
+      = (.dict .n0 [(['o'], .dict .n0 [(['p'], .dict .n0 [(['q'], .int 1)])]),
+                    (['h'], .list .n0 [.int 1, .dict .n0 [(['x'], .int 1)], .dict .n0 []])], .ok ()) ∧
+    pop 40 exHidden ['a', '[', '-', '1', ']'] (.str ['D']) false
+      = .ok (.dict .n0 [(['o'], .dict .n0 [(['p'], .dict .n0 [(['q'], .int 1)])]),
+                        (['h'], .list .n0 [.int 1, .dict .n0 [(['x'], .int 1)], .dict .n0 []])], .int 1) ∧
+    delete 40 exHidden ['o', '[', '0', ']', '/', 'p', '/', 'q'] true
+      = (.dict .n0 [(['a'], .int 1), (['h'], .list .n0 [.int 1, .dict .n0 [(['x'], .int 1)], .dict .n0 []])], .ok ()) ∧
+    delete 40 exHidden ['o', '/', 'p', '[', '0', ']', '/', 'q'] true = delete 40 exHidden ['o', '/', 'p', '/', 'q'] true ∧
+    delete 40 exHidden ['h', '[', '1', ']', '[', '0', ']', '/', 'x'] true
+      = (.dict .n0 [(['a'], .int 1), (['o'], .dict .n0 [(['p'], .dict .n0 [(['q'], .int 1)])]),
+                    (['h'], .list .n0 [.int 1, .dict .n0 []])], .ok ()) ∧
+    delete 40 exHidden ['a', '[', '3', ']'] false = (exHidden, .error .TypeError) := by
+  decide
+/-- … and through the theorem -/
+example : ∃ t', delAt exHidden [.key ['a']] = some t' ∧
+    delete 40 exHidden ['/', '/', 'a', '[', 'l', 'a', 's', 't', '(', ')', ']'] false = (t', .ok ()) :=
+  C05_delete_hidden_list .n0 _ [] .n0 _ ['a'] (.int 1) .last 40 trivial rfl (pk 'a') (by decide) rfl (Or.inr rfl) (by decide)
 
 end N0.C05
